@@ -51,8 +51,13 @@ let out = Buffer.create (1 lsl 20)
 let emit id tag payload = Buffer.add_string out id; Buffer.add_char out ' '; Buffer.add_string out tag;
   Buffer.add_char out ' '; Buffer.add_string out payload; Buffer.add_char out '\n'
 
+(* the node table, read entry by entry with binary handles (table_of of the model walks unary numbers, which is
+   quadratic for the stores with more than 2^16 nodes) *)
+let table_list (st : store) : node list =
+  let rec go h acc = if N.ltb h st.size then go (N.add h (n_of_int 1)) (get_node st h :: acc) else List.rev acc in
+  go N0 []
 let table_string (st : store) : string =
-  join ";" (fun nd -> sn nd.nv ^ ":" ^ sn nd.nlo ^ ":" ^ sn nd.nhi) (table_of st)
+  join ";" (fun nd -> sn nd.nv ^ ":" ^ sn nd.nlo ^ ":" ^ sn nd.nhi) (table_list st)
 
 exception NoFuel
 
@@ -65,11 +70,16 @@ let cubes_string cs =
 let run_prog id (cfgs : string) (lines : string list) =
   let c = cfg_of_string cfgs in
   let st = ref (init c) in
-  let regs = ref [||] in
-  let push h = regs := Array.append !regs [| h |] in
-  let reg w = (!regs).(int_of_string w) in
+  let regs = ref (Array.make 64 N0) and nregs = ref 0 in
+  let push h =
+    if !nregs = Array.length !regs then begin
+      let bigger = Array.make (2 * !nregs) N0 in
+      Array.blit !regs 0 bigger 0 !nregs; regs := bigger
+    end;
+    (!regs).(!nregs) <- h; incr nregs in
+  let reg w = let i = int_of_string w in if i >= !nregs then invalid_arg "index out of bounds" else (!regs).(i) in
   let k = ref 0 in
-  let setres (s, h) = st := s; push h; emit id ("r" ^ string_of_int (Array.length !regs - 1)) (sn h) in
+  let setres (s, h) = st := s; push h; emit id ("r" ^ string_of_int (!nregs - 1)) (sn h) in
   (try
     List.iter (fun line ->
       match words line with
@@ -185,6 +195,7 @@ let run_adf id (lines : string list) =
   if not ok then emit id "parse" "ERR"
   else begin
     let ps = if !sort = "lexi" then varsort_lexi ps0 else ps0 in
+    let psr = ref ps in
     emit id "parse" ("OK " ^ join "," (fun s -> hex (string_of_str s)) ps.names);
     match resolve_acs ps.names ps.acs with
     | None -> emit id "build" "PANIC"
@@ -224,6 +235,16 @@ let run_adf id (lines : string list) =
           match q with
           | ["depths"] -> emit id qid ("depths " ^ String.concat "," (List.map (fun t -> sn (max_depth c a.st t)) a.ac))
           | ["audit"] -> emit id qid ("audit " ^ audit_string a.c a.st)
+          | ["rebuild"; srt] ->
+            (* the same parser object is sorted (again) and a new ADF is instantiated from it (native back-end) *)
+            let ps' = if srt = "lexi" then varsort_lexi !psr else !psr in
+            psr := ps';
+            (match resolve_acs ps'.names ps'.acs with
+             | None -> emit id qid "rebuild PANIC"
+             | Some fs' ->
+               let (st', ac') = unopt (from_parser c (nat_of_int (List.length ps'.names)) fs') in
+               a.st <- st'; a.ac <- ac';
+               emit id qid ("rebuild " ^ srt ^ " names=" ^ join "," (fun s -> hex (string_of_str s)) ps'.names))
           | ["paths"] ->
             let hs = N0 :: n_of_int 1 :: a.ac in
             emit id qid ("paths " ^ String.concat " " (List.map (fun t ->
